@@ -292,6 +292,34 @@ func dischargeOne(o *Obl, dir string, timeoutS int, all bool) {
 	} else {
 		o.Time += r0.dur
 	}
+	// attempt 1: only the small facts of the path condition (bounds, equalities, short
+	// implications); giant assumptions such as a callee's postcondition over a 243-ary digest term
+	// are left out. Dropping assumptions can only lose proofs.
+	if small := smallFacts(o.PC, 400); len(small) < len(o.PC) {
+		so := *o
+		so.PC = small
+		sfn := strings.TrimSuffix(fn, ".smt2") + ".small.smt2"
+		os.WriteFile(sfn, []byte(so.smt(nil)), 0o644)
+		r := portfolio(sfn, min(3, timeoutS), false)
+		if r.status == "unsat" {
+			o.Status, o.Solver, o.Time, o.Model = r.status, r.solver+" (small-facts VC)", r.dur, r.out
+			return
+		}
+		o.Time += r.dur
+	}
+	// attempt 2: applications with many arguments (digests of whole blocks) generalised to fresh
+	// constants, the same constant for the same application. If the generalised obligation is valid
+	// so is the original one.
+	if ao := abstractBigApps(o); ao != nil {
+		afn := strings.TrimSuffix(fn, ".smt2") + ".abs.smt2"
+		os.WriteFile(afn, []byte(ao.smt(nil)), 0o644)
+		r := portfolio(afn, min(5, timeoutS), false)
+		if r.status == "unsat" {
+			o.Status, o.Solver, o.Time, o.Model = r.status, r.solver+" (large applications generalised)", r.dur, r.out
+			return
+		}
+		o.Time += r.dur
+	}
 	// definitions needed by the goal (transitively through definition bodies)
 	defLines := strings.Split(strings.TrimSpace(o.Defs), "\n")
 	defText := map[string]string{}
@@ -364,4 +392,77 @@ func dischargeOne(o *Obl, dir string, timeoutS int, all bool) {
 	r := portfolio(fn, timeoutS, all)
 	o.Status, o.Solver, o.Model = r.status, r.solver, r.out
 	o.Time += r.dur
+}
+
+// smallFacts: the assumptions whose term DAG has at most limit nodes.
+func smallFacts(pc []*Term, limit int) []*Term {
+	var out []*Term
+	for _, p := range pc {
+		seen := map[*Term]bool{}
+		n := 0
+		var walk func(t *Term)
+		walk = func(t *Term) {
+			if seen[t] || n > limit {
+				return
+			}
+			seen[t] = true
+			n++
+			for _, a := range t.Args {
+				walk(a)
+			}
+		}
+		walk(p)
+		if n <= limit {
+			out = append(out, p)
+		}
+	}
+	return out
+}
+
+func abstractBigApps(o *Obl) *Obl {
+	rep := map[*Term]*Term{}
+	memo := map[*Term]*Term{}
+	var rw func(t *Term) *Term
+	rw = func(t *Term) *Term {
+		if r, ok := memo[t]; ok {
+			return r
+		}
+		var res *Term
+		switch {
+		case t.Op == "app" && len(t.Args) >= 32:
+			v, ok := rep[t]
+			if !ok {
+				v = Var(fmt.Sprintf("gen!%d", len(rep)+1), t.S)
+				rep[t] = v
+			}
+			res = v
+		case len(t.Args) == 0 || t.Op == "forall" || t.Op == "exists":
+			res = t
+		default:
+			args := make([]*Term, len(t.Args))
+			ch := false
+			for i, a := range t.Args {
+				args[i] = rw(a)
+				if args[i] != a {
+					ch = true
+				}
+			}
+			res = t
+			if ch {
+				res = rebuild(t, args)
+			}
+		}
+		memo[t] = res
+		return res
+	}
+	c := *o
+	c.PC = make([]*Term, len(o.PC))
+	for i, p := range o.PC {
+		c.PC[i] = rw(p)
+	}
+	c.Goal = rw(o.Goal)
+	if len(rep) == 0 {
+		return nil
+	}
+	return &c
 }
